@@ -419,6 +419,7 @@ func (g *gen) module() {
 		}
 	}
 	g.out.Bytes = m.Encode()
+	g.out.Enc = m
 }
 
 // ---------------- constants ----------------
@@ -777,6 +778,9 @@ func (g *gen) stmts(n int) bool {
 			return false
 		}
 		if g.stmt() {
+			if g.chance(40, "deadcode") {
+				g.deadCode()
+			}
 			return true
 		}
 	}
@@ -1200,6 +1204,10 @@ func (g *gen) addr(width int, aligned bool) uint32 {
 		if a > 4096 && g.chance(80, "lowaddr") {
 			a %= 4096
 		}
+		if room >= 128 && g.chance(45, "hotaddr") {
+			// a few hot addresses so that different accesses alias each other often
+			a = uint32(g.intn(8, "hotslot"))*8 + uint32(g.intn(3, "hotmis"))
+		}
 		if aligned {
 			a &^= uint32(width - 1)
 		}
@@ -1461,7 +1469,11 @@ func (g *gen) expr(ty byte, depth int) {
 		return
 	}
 	if (ty == I32 || ty == I64) && g.chance(10, "idiom") {
-		g.idiom(ty, depth)
+		if g.out.HasMemory && g.memSize >= 256 && g.chance(30, "aliasidiom") {
+			g.aliasIdiom(ty, depth)
+		} else {
+			g.idiom(ty, depth)
+		}
 		return
 	}
 	k := g.intn(100, "expr")
@@ -1961,5 +1973,131 @@ func (g *gen) idiom(ty byte, depth int) {
 			g.localGet(t)
 			g.op1("sub", opc(0x6b, 0x7d))
 		}
+	}
+}
+
+// deadCode emits a few instructions after an unconditional transfer of control. The operand
+// stack is polymorphic there, so operands need not be produced; the sequence ends with
+// unreachable so that whatever it pushed cannot clash with the block's result types.
+func (g *gen) deadCode() {
+	g.stat("deadcode")
+	n := g.rng(1, 4, "ndead")
+	for i := 0; i < n; i++ {
+		if i > 0 {
+			// forget the concrete values pushed by the previous dead instruction: every dead
+			// instruction then type-checks against a polymorphic stack
+			g.op1("unreachable", 0x00)
+		}
+		switch g.intn(15, "dead") {
+		case 0, 1, 12, 13, 14: // br_table with arbitrary (valid) labels and default
+			var same []uint32
+			nl := len(g.f.labels)
+			lt := g.f.labels[g.intn(nl, "deadlabel")].types
+			for j, l := range g.f.labels {
+				if string(l.types) == string(lt) {
+					same = append(same, uint32(nl-1-j))
+				}
+			}
+			k := g.rng(0, 5, "deadtargets")
+			ts := make([]uint32, k)
+			for i := range ts {
+				ts[i] = same[g.intn(len(same), "deadtarget")]
+			}
+			def := same[g.intn(len(same), "deaddef")]
+			g.f.emit("br_table", wasmenc.NewB().BrTable(ts, def).Bytes(), int64(k), int64(def))
+		case 2:
+			g.op1("i32.add", 0x6a)
+		case 3:
+			g.op1("drop", 0x1a)
+		case 4:
+			g.op1("select", 0x1b)
+		case 5:
+			g.i32const(int32(g.drawI32()))
+		case 6:
+			if len(g.f.locals) > 0 {
+				g.localGet(uint32(g.intn(len(g.f.locals), "deadlocal")))
+			}
+		case 7:
+			d := uint32(g.intn(len(g.f.labels), "deadbr"))
+			g.f.emit("br", wasmenc.NewB().Br(d).Bytes(), int64(d))
+		case 8:
+			g.op1("return", 0x0f)
+		case 9:
+			g.f.emitExt("block", "", []byte{0x02, 0x40})
+			g.op1("nop", 0x01)
+			g.f.emit("end", []byte{0x0b})
+		case 10:
+			if g.out.HasMemory {
+				g.memIns("i64.load", 0x29, 0, uint32(g.intn(64, "deadoff")))
+			}
+		default:
+			g.op1("i64.eqz", 0x50)
+		}
+	}
+	g.op1("unreachable", 0x00)
+}
+
+// aliasIdiom emits: x = load [A]; a write to (or around) the same address A in between - plain
+// store, atomic read-modify-write, memory.fill, or a call that may write; then x is combined
+// with another value. An engine that delays or re-orders the load past the write reads the
+// wrong value.
+func (g *gen) aliasIdiom(ty byte, depth int) {
+	g.stat("alias-idiom")
+	t64 := ty == I64
+	a := int32(g.intn(8, "aliasslot")*8) + 64
+	// the address lives in a local so that both accesses use the same value (engines then reuse
+	// the bounds knowledge of the first access for the second)
+	pl := g.privateLocal(I32)
+	g.i32const(a)
+	g.localSet(pl)
+	g.localGet(pl)
+	if t64 {
+		g.memIns("i64.load", 0x29, 0, 0)
+	} else {
+		g.memIns("i32.load", 0x28, 0, 0)
+	}
+	// the intervening write
+	switch k := g.intn(6, "aliaswrite"); {
+	case k <= 1:
+		st := stores[g.intn(len(stores), "aliasstore")]
+		g.localGet(pl)
+		g.expr(st.ty, 2)
+		g.memIns(st.name, st.op, 0, uint32(g.intn(4, "aliasdelta")))
+	case k <= 3 && g.has(FeatThreads):
+		// an atomic read-modify-write of the same type whose old value is the other operand
+		var c []*Op
+		for _, op := range g.ops[ty] {
+			if op.Imm == ImmAtomic && len(op.Params) >= 2 {
+				c = append(c, op)
+			}
+		}
+		op := c[g.intn(len(c), "aliasrmw")]
+		g.localGet(pl) // the slot addresses are 8-byte aligned
+		for _, p := range op.Params[1:] {
+			g.leaf(p)
+		}
+		g.f.emit(op.Name, wasmenc.NewB().Raw(op.Prefix).Append(wasmenc.U32(op.Sub)).Append(wasmenc.U32(log2(op.Width))).Append(wasmenc.U32(0)).Bytes())
+		if t64 {
+			g.op1("i64.add", 0x7c)
+		} else {
+			g.op1("i32.add", 0x6a)
+		}
+		return
+	case k == 4 && g.has(FeatBulk):
+		g.localGet(pl)
+		g.i32const(int32(g.intn(256, "aliasfillv")))
+		g.i32const(int32(g.rng(1, 8, "aliasfilln")))
+		g.f.emit("memory.fill", wasmenc.NewB().MemoryFill().Bytes())
+	default:
+		fn := g.anyFn(len(g.sigs), "aliascall")
+		g.call(fn)
+		g.consumeAll(g.sigs[fn].R)
+	}
+	// use of the loaded value
+	g.expr(ty, depth-1)
+	if t64 {
+		g.op1("i64.add", 0x7c)
+	} else {
+		g.op1("i32.xor", 0x73)
 	}
 }
